@@ -19,6 +19,20 @@ def default_spec(kind, **kw):
     return d
 
 
+def thorough_variants(specs):
+    """thorough tier: the same shapes over richer configurations (more executors / approvers / convertible and quote denominations)"""
+    out = []
+    for s in specs:
+        out.append(s)
+        if s['kind'] in ('CreateAsk', 'CreateBid', 'ModifyContract'):
+            continue
+        t = dict(s, n_exec=3, n_appr=max(s['n_appr'], 2), n_quote=2, n_conv=2 if s['n_conv'] else 0)
+        if s['kind'] == 'ExecuteMatch' and s.get('markers') and not all(f == (i % 2 == 0) for i, (_, f) in enumerate(s['markers'])):
+            continue          # the enriched configuration once per shape (mixed marker assignment), not once per assignment
+        out.append(t)
+    return out
+
+
 def specs_for(kinds, tier, funds_variants=True):
     """shape enumeration used by most properties"""
     out = []
@@ -84,6 +98,8 @@ def specs_for(kinds, tier, funds_variants=True):
                         mod = tuple((n, n == nm) for n in names)
                         out.append(default_spec(k, cfg_ask_fee=af, cfg_bid_fee=bf, mod=mod, lens=((nm, ln),), n_appr=2, n_ask_attr=1, n_bid_attr=1))
             out.append(default_spec(k, mod=tuple((n, False) for n in names), nfunds=1))
+    if tier == 'thorough':
+        out = thorough_variants(out)
     return out
 
 
@@ -110,14 +126,22 @@ def build(eng, bounds, spec):
     sc.set_attrs(spec['n_attrs'])
     if spec.get('markers'):
         from .harness import restricted
-        terms = {'base': sc.cfgf('base_denom'), 'quote': sc.cfgf('supported_quote_denoms')[0], 'conv': sc.asks[0]['base']}
+        terms = {'base': sc.cfgf('base_denom'), 'quote': sc.bids[0]['quote'], 'conv': sc.asks[0]['base']}
         for name, flag in spec['markers']:
             sc.assume.append(restricted(terms[name]) == flag)
+    req = make_request(sc, spec, 'req')
+    return sc, req
+
+
+def make_request(sc, spec, PX='req'):
+    """symbolic request of spec['kind'] with symbols named PX.*"""
+    eng, bounds, ti = sc.eng, sc.b, sc.ti
+    kind = spec['kind']
     S, I = sc.s, sc.i
     B = bounds.B
-    req = {'kind': kind, 'spec': spec}
+    req = {'kind': kind, 'spec': spec, 'prefix': PX}
     if kind in ASK_KINDS or kind in BID_KINDS or kind == 'ApproveAsk':
-        rid = S('req.id')
+        rid = S(PX + '.id')
         req['id'] = rid
     if kind == 'CancelAsk':
         msg = ti.mk('ExecuteMsg', 'CancelAsk', id=rid)
@@ -131,28 +155,28 @@ def build(eng, bounds, spec):
         msg = ti.mk('ExecuteMsg', kind[:9], id=rid, size=NONE())
         req['cancel_size'] = None
     elif kind in ('RejectAskSome', 'RejectBidSome'):
-        c = I('req.size', 0, B)
+        c = I(PX + '.size', 0, B)
         req['cancel_size'] = c
         msg = ti.mk('ExecuteMsg', kind[:9], id=rid, size=some(U(c)))
     elif kind == 'ApproveAsk':
-        req['base'], req['size'] = S('req.base'), I('req.size', 0, B)
+        req['base'], req['size'] = S(PX + '.base'), I(PX + '.size', 0, B)
         msg = ti.mk('ExecuteMsg', 'ApproveAsk', id=rid, base=req['base'], size=U(req['size']))
     elif kind == 'CreateAsk':
-        ps, pn, pd = sc.free_decimal_string('req.price')
-        req.update(id=S('req.id'), base=S('req.base'), quote=S('req.quote'), price=ps, pn=pn, pd=pd, size=I('req.size', 0, B))
+        ps, pn, pd = sc.free_decimal_string(PX + '.price')
+        req.update(id=S(PX + '.id'), base=S(PX + '.base'), quote=S(PX + '.quote'), price=ps, pn=pn, pd=pd, size=I(PX + '.size', 0, B))
         msg = ti.mk('ExecuteMsg', 'CreateAsk', id=req['id'], base=req['base'], quote=req['quote'], price=ps, size=U(req['size']))
     elif kind == 'CreateBid':
-        ps, pn, pd = sc.free_decimal_string('req.price')
-        req.update(id=S('req.id'), base=S('req.base'), quote=S('req.quote'), price=ps, pn=pn, pd=pd, size=I('req.size', 0, B), quote_size=I('req.quote_size', 0, B))
+        ps, pn, pd = sc.free_decimal_string(PX + '.price')
+        req.update(id=S(PX + '.id'), base=S(PX + '.base'), quote=S(PX + '.quote'), price=ps, pn=pn, pd=pd, size=I(PX + '.size', 0, B), quote_size=I(PX + '.quote_size', 0, B))
         if spec['reqfee']:
-            req['fee_denom'], req['fee_amount'] = S('req.fee_denom'), I('req.fee_amount', 0, B)
+            req['fee_denom'], req['fee_amount'] = S(PX + '.fee_denom'), I(PX + '.fee_amount', 0, B)
             fee = some(Coin(req['fee_denom'], req['fee_amount']))
         else:
             fee = NONE()
         msg = ti.mk('ExecuteMsg', 'CreateBid', id=req['id'], base=req['base'], fee=fee, price=ps, quote=req['quote'], quote_size=U(req['quote_size']), size=U(req['size']))
     elif kind == 'ExecuteMatch':
-        ps, pn, pd = sc.free_decimal_string('req.price')
-        req.update(ask_id=S('req.ask_id'), bid_id=S('req.bid_id'), price=ps, pn=pn, pd=pd, size=I('req.size', 0, B))
+        ps, pn, pd = sc.free_decimal_string(PX + '.price')
+        req.update(ask_id=S(PX + '.ask_id'), bid_id=S(PX + '.bid_id'), price=ps, pn=pn, pd=pd, size=I(PX + '.size', 0, B))
         msg = ti.mk('ExecuteMsg', 'ExecuteMatch', ask_id=req['ask_id'], bid_id=req['bid_id'], price=ps, size=U(req['size']))
     elif kind == 'ModifyContract':
         m = dict(spec['mod'])
@@ -161,16 +185,16 @@ def build(eng, bounds, spec):
         def opt_list(name, role):
             if not m.get(name):
                 return NONE(), None
-            l = [S('req.%s%d' % (role, k)) for k in range(lens.get(name, 1))]
+            l = [S((PX + '.%s%d') % (role, k)) for k in range(lens.get(name, 1))]
             return some(l), l
 
         def opt_str(name, decimal=False):
             if not m.get(name):
                 return NONE(), None
             if decimal:
-                t, _, _ = sc.free_decimal_string('req.' + name)
+                t, _, _ = sc.free_decimal_string(PX + '.' + name)
             else:
-                t = S('req.' + name)
+                t = S(PX + '.' + name)
             return some(t), t
         fields = {}
         vals = {}
@@ -189,10 +213,36 @@ def build(eng, bounds, spec):
     else:
         raise ValueError(kind)
     req['msg'] = msg
-    req['sender'] = sc.s('req.sender')
-    return sc, req
+    req['sender'] = sc.s(PX + '.sender')
+    return req
+
 
 
 def run(sc, req, max_paths=200000):
     for fin in sc.execute(req['msg'], nfunds=req['spec']['nfunds'], max_paths=max_paths):
         yield W.Path(fin)
+
+
+class Follow:
+    """view of a scenario whose pre-state is the post-state of an accepted first request (for composed steps)"""
+
+    def __init__(self, sc, path):
+        self.__dict__.update(sc.__dict__)
+        self._sc = sc
+        self.world = path.world
+        self.base_pc = list(path.pc)
+
+    def __getattr__(self, name):
+        return getattr(self._sc, name)
+
+
+def run_second(sc, path, spec2, PX='req2'):
+    """run a follow-up request of spec2 from the post-state of `path`; yields (follow-scenario, req2, path2)"""
+    n0 = len(sc.assume)
+    req2 = make_request(sc, spec2, PX)
+    info = sc.info(spec2['nfunds'], prefix=PX)
+    extra = sc.assume[n0:]
+    fol = Follow(sc, path)
+    fol.funds = list(sc.funds)
+    for fin in sc.run_entry('execute', [sc.deps(), sc.env(), info, req2['msg']], world=path.world, pc=list(path.pc) + extra):
+        yield fol, req2, W.Path(fin)
